@@ -12,7 +12,7 @@ PROPS["C09"] = dict(
                  "a failed creation changes nothing; Remove/Clear report what they removed", "porcupine v1.3.0; a checker timeout is inconclusive"],
     units=[
         dict(name="controlled", run="^TestC09Controlled$", checks=(6000, 40000), shards=(2, 16), timeout=(300, 1800)),
-        dict(name="free", run="^TestC09Free$", checks=(3000, 20000), shards=(2, 16), timeout=(300, 1800), race=(False, True)),
+        dict(name="free", run="^TestC09Free$", checks=(3000, 20000), shards=(2, 16), timeout=(300, 1800), race=(False, True), shrinktime="10s"),
     ],
 )
 
